@@ -42,7 +42,7 @@ def gen_table(rng):
                 cells.append(rng.choice([0, 1]))
             else:
                 cells.append(rng.choice(['2020-01-02 03:04:05', '1999-12-31 23:59:59', '2021-06-07 00:00:00']))
-        cols.append(('c%d' % i if rng.random() < 0.7 else rng.choice(['my col', 'order', 'é', '#items', ' pad ']) + str(i), k, cells))
+        cols.append(('c%d' % i if rng.random() < 0.7 else rng.choice(['my col', 'order', 'é', '#items', ' pad ', 'growth %', '100%', '% done', 'a%sb', 'c%(x)s']) + str(i), k, cells))
     return nrows, cols
 
 
@@ -224,6 +224,45 @@ def run(ctx):
             os.remove(path)
             if it == 0:
                 ctx.sample(case)
+        # ---- a violating row added through the SAME connection and not yet committed (the caller's open transaction):
+        # verification sees it, reports the constraint as failed, and leaves the caller's transaction alone
+        from tdda.constraints.db.drivers import database_connection
+        from tdda.constraints.db.constraints import discover_db_table, verify_db_table
+        for it in range(10 if ctx.quick else 150):
+            path = os.path.join(work, 'open%d.db' % it)
+            conn = sqlite3.connect(path)
+            conn.execute('create table tbl (n integer, s text)')
+            vals = [(rng.randint(0, 50), rng.choice(['a', 'bb', 'ccc'])) for _ in range(rng.randint(2, 6))]
+            conn.executemany('insert into tbl values (?, ?)', vals)
+            conn.commit()
+            conn.close()
+            kind, row = rng.choice([('min', (-9, 'a')), ('max', (10 ** 6, 'a')), ('max_length', (1, 'z' * 40)), ('max_nulls', (None, 'a'))])
+            case = {'scenario': 'violating row inserted on the same connection, not committed', 'rows': vals, 'added': row, 'breaks': kind}
+            ctx.count(repr(case), True)
+            ctx.bump('uncommitted_row.' + kind)
+            try:
+                with contextlib.redirect_stderr(io.StringIO()), contextlib.redirect_stdout(io.StringIO()):
+                    db = database_connection(dbtype='sqlite', db=path)
+                    cs = discover_db_table('sqlite', db, 'tbl', inc_rex=False)
+                    db.connection.execute('insert into tbl values (?, ?)', row)
+                    with open(path + '.tdda', 'w', encoding='utf-8') as f_:
+                        f_.write(cs.to_json())
+                    v = verify_db_table('sqlite', db, 'tbl', path + '.tdda')
+                    left = db.connection.execute('select count(*) from tbl').fetchone()[0]
+                    db.connection.rollback()
+                    db.connection.close()
+            except Exception as e:
+                ctx.fail(case, 'discover / insert / verify on one connection raised %s: %s' % (type(e).__name__, str(e)[:200]))
+                continue
+            fld = 'n' if kind in ('min', 'max', 'max_nulls') else 's'
+            got = v.fields[fld][kind] if kind in v.fields[fld] else None
+            if got is not False:
+                ctx.fail(case, 'the added row breaks %s on %r but verification on the same connection reports %r (failures %d)'
+                         % (kind, fld, got, v.failures))
+            if left != len(vals) + 1:
+                ctx.fail(case, 'the table had %d rows in the caller\'s open transaction before verification and %d after it'
+                         % (len(vals) + 1, left))
+            os.remove(path)
         # ---- large tables: more distinct values than any in-memory shortcut is likely to keep, with the shortest,
         # the longest and the smallest / largest values late in sort and in insertion order
         for size in ([130000] if ctx.quick else [20000, 70000, 130000, 300000]):
